@@ -7,5 +7,5 @@ CONSTANTS
   Delay = 2
   Scripts <- SmallScripts
   CancelTimes <- CancelGrid
-INVARIANTS C03_Shape C03_LowestDest C06_Order C06_Paced C06_Stop C05_RTT C05_First C08_Bound C08_Cancel EmitOut
+INVARIANTS C03_Shape C03_LowestDest C06_Order C06_Paced C06_Stop C05_RTT C05_First C08_Bound C08_Cancel EmitOut C02_Listens
 CHECK_DEADLOCK FALSE
